@@ -870,7 +870,9 @@ func Expr(query *Query, current Map, expr sqlparser.Expr, opts ...ExprOption) (a
 				columnName = fmt.Sprintf("%s.%s", qualifier, name)
 			}
 			if options.hardCodedRead {
-				columnName = fmt.Sprintf("'%s'", columnName)
+				// the whole name is one key of the row at hand; a name that
+				// is written quoted itself (x.`'user-id'`) is that key too
+				columnName = fmt.Sprintf("'%s'", strings.ReplaceAll(columnName, "'", ""))
 			}
 			return ColumnName(columnName), nil
 		}
